@@ -12,6 +12,8 @@ use std::collections::HashSet;
 
 pub fn gens() -> Vec<Gen> {
     vec![
+        Gen { name: "c03.genuine_lists", prop: "C03", tags: &["genuine", "unpack", "array", "src/verifier.rs"], cases: cases_genuine, check },
+        Gen { name: "c03.smuggled_placeholder", prop: "C03", tags: &["smuggle", "reserved", "check_for_sd_claim", "issuer", "placeholder"], cases: cases_smuggled, check },
         Gen { name: "c03.single_deviation", prop: "C03", tags: &["pad", "garbage", "forge", "dup", "parse", "src/lib.rs"], cases: cases_single, check },
         Gen { name: "c03.triples", prop: "C03", tags: &["hash_map", "create_hash_mappings", "digest"], cases: cases_triples, check },
         Gen { name: "c03.subsets", prop: "C03", tags: &["subset", "perm", "order"], cases: cases_subsets, check },
@@ -20,6 +22,16 @@ pub fn gens() -> Vec<Gen> {
 }
 
 pub fn credential(k: usize) -> Cfg {
+    if (k / 3) % 2 == 1 {
+        // arrays directly inside arrays, hidden on both levels
+        let claims = json!({"iss": "https://issuer.example/i", "exp": FAR_EXP, "vis": "v", "m": [["LIS", "MAD"], ["OSL"]]});
+        let strategy = match k % 3 {
+            0 => Strategy::AllLevels,
+            1 => Strategy::Custom(vec!["$.m[0]".into(), "$.m[0][0]".into(), "$.m[0][1]".into(), "$.m[1][0]".into()]),
+            _ => Strategy::TopLevel,
+        };
+        return Cfg::simple(claims, strategy).variant(k);
+    }
     let claims = json!({
         "iss": "https://issuer.example/i", "exp": FAR_EXP, "vis": "v", "role": "guest",
         "addr": {"city": "X", "zip": "1"}, "tags": ["t0", "t1"]
@@ -67,6 +79,80 @@ fn garbage_pool() -> Vec<J> {
         .iter()
         .map(|s| json!({ "raw": s }))
         .collect()
+}
+
+/// Cheap first pass: the full genuine list, the empty list, each single disclosure, each
+/// list with one disclosure left out, for every credential.
+fn cases_genuine(_rng: &mut Rng, sink: &mut dyn FnMut(J) -> bool) {
+    for k in 0..12 {
+        let n = n_genuine(k);
+        let all: Vec<J> = (0..n).map(|i| json!({ "g": i })).collect();
+        let mut lists = vec![all.clone(), vec![]];
+        for i in 0..n {
+            lists.push(vec![json!({ "g": i })]);
+            let mut l = all.clone();
+            l.remove(i);
+            lists.push(l);
+        }
+        let mut r = all.clone();
+        r.reverse();
+        lists.push(r);
+        for l in lists {
+            if !sink(case_of(k, l)) {
+                return;
+            }
+        }
+    }
+}
+
+const FORGED_SALT: &str = "Zm9yZ2VkLXNhbHQtMDEyMzQ1";
+
+/// Claims that carry a reserved-name object (a home-made digest placeholder) inside an array
+/// go through the LIBRARY issuer. If issuance is refused the case passes; if a credential is
+/// issued, the forged disclosure matching the smuggled digest must not contribute anything.
+fn cases_smuggled(_rng: &mut Rng, sink: &mut dyn FnMut(J) -> bool) {
+    let f2 = |v: J| crate::util::digest(&make_disclosure(&json!([FORGED_SALT, v])));
+    let f3 = |n: &str, v: J| crate::util::digest(&make_disclosure(&json!([FORGED_SALT, n, v])));
+    let d_admin = f2(json!("administrator"));
+    let d_obj = f2(json!({"role": "admin"}));
+    let d_member = f3("admin", json!(true));
+    let base = |extra: J| {
+        let mut c = json!({"iss": "https://issuer.example/i", "exp": FAR_EXP, "sub": "s"});
+        for (k, v) in extra.as_object().unwrap() {
+            c[k] = v.clone();
+        }
+        c
+    };
+    let variants: Vec<(J, Vec<J>)> = vec![
+        (base(json!({"roles": ["user", {"...": d_admin}]})), vec![json!({"forge2": "administrator"})]),
+        (base(json!({"roles": [["user", {"...": d_admin}]]})), vec![json!({"forge2": "administrator"})]),
+        (base(json!({"o": {"list": [{"...": d_obj}, 1]}})), vec![json!({"forge2": {"role": "admin"}})]),
+        (base(json!({"groups": [{"name": "g", "_sd": [d_member]}]})), vec![json!({"forge3": ["admin", true]})]),
+        (base(json!({"groups": [[{"_sd": [d_member]}]]})), vec![json!({"forge3": ["admin", true]})]),
+        (base(json!({"o": {"_sd": [d_member], "k": 1}})), vec![json!({"forge3": ["admin", true]})]),
+        (base(json!({"_sd": [d_member]})), vec![json!({"forge3": ["admin", true]})]),
+        (base(json!({"roles": ["user", {"x": [{"...": d_admin}]}]})), vec![json!({"forge2": "administrator"})]),
+    ];
+    let mut n = 0usize;
+    for (claims, forged) in variants {
+        for strategy in [Strategy::NoSD, Strategy::TopLevel, Strategy::AllLevels] {
+            let hidden = crate::oracle::hidden_paths(&claims, &strategy).len();
+            let genuine: Vec<J> = (0..hidden).map(|i| json!({ "g": i })).collect();
+            let mut with_all = genuine.clone();
+            with_all.extend(forged.clone());
+            for list in [forged.clone(), with_all, genuine.clone()] {
+                n += 1;
+                let mut cfg = Cfg::simple(claims.clone(), strategy.clone()).variant(n);
+                cfg.holder = None;
+                let mut c = cfg.to_json();
+                c["list"] = J::Array(list);
+                c["issuer_may_refuse"] = json!(true);
+                if !sink(c) {
+                    return;
+                }
+            }
+        }
+    }
 }
 
 fn cases_single(_rng: &mut Rng, sink: &mut dyn FnMut(J) -> bool) {
@@ -220,9 +306,9 @@ pub fn resolve_item(item: &J, genuine: &[String], other: &[String]) -> Option<St
         "other" => other.get(v.as_u64()? as usize).cloned(),
         "forge3" => {
             let a = v.as_array()?;
-            Some(make_disclosure(&json!(["Zm9yZ2VkLXNhbHQtMDEyMzQ1", a[0], a[1]])))
+            Some(make_disclosure(&json!([FORGED_SALT, a[0], a[1]])))
         }
-        "forge2" => Some(make_disclosure(&json!(["Zm9yZ2VkLXNhbHQtMDEyMzQ1", v]))),
+        "forge2" => Some(make_disclosure(&json!([FORGED_SALT, v]))),
         "raw" => v.as_str().map(String::from),
         _ => None,
     }
@@ -231,6 +317,13 @@ pub fn resolve_item(item: &J, genuine: &[String], other: &[String]) -> Option<St
 pub fn check(case: &J) -> Verdict {
     let Some(cfg) = Cfg::from_json(case) else { return Verdict::Trivial };
     let Some(list) = case["list"].as_array() else { return Verdict::Trivial };
+    if case["issuer_may_refuse"].as_bool().unwrap_or(false) {
+        match cfg.issue() {
+            Out::Err(_) => return Verdict::Pass,
+            Out::Panic(m) => return fail(format!("issue_sd_jwt PANIC: {m}"), "Ok or Err"),
+            Out::Ok(_) => {}
+        }
+    }
     let (_, issued) = match cfg.issue_parts() {
         Ok(x) => x,
         Err(v) => return v,
